@@ -273,6 +273,42 @@ def make_host(kind, tag, calls):
     return fn
 
 
+DATA_HELPER_CALLS = {'dataFilter': "dataFilter(rows, '%s'%s)", 'dataCalculatedField': "dataCalculatedField(rows, 'c', '%s'%s)",
+                     'dataJoin': "dataJoin(rows, rows, '%s', null, false%s)", 'dataJoinRight': "dataJoin(rows, rows, 'a', '%s', true%s)"}
+
+
+def check_data_expression_failures(helper, variables, debug, kind):
+    """A host / library call that fails inside the expression string of a data function (evaluated once per row): each failing call is null, is reported
+    through logFn in debug mode - with or without a variables object - and the script continues."""
+    d = {'kind': 'data-expression', 'helper': helper, 'variables': variables, 'debug': debug, 'failing': kind}
+    calls = []
+    g = {'hf': make_host(kind, 'hf', calls)} if kind != 'library' else {}
+    expr = 'hf(a)' if kind != 'library' else 'arrayGet(a, 5)'
+    vtext = {None: '', 'empty': ', objectNew()', 'one': ", objectNew('limit', 2)"}[variables]
+    if helper in ('dataJoin', 'dataJoinRight') and variables is None:
+        call = DATA_HELPER_CALLS[helper].replace(', null, false%s', '%s').replace(', true%s', '%s') % (expr, '')
+    else:
+        call = DATA_HELPER_CALLS[helper] % (expr, vtext)
+    src = "rows = arrayNew(objectNew('a', 1), objectNew('a', 2), objectNew('a', 3))\nr = %s\nsystemLog('after')\nreturn r" % call
+    log = []
+    opts = {'globals': g, 'logFn': log.append, 'maxStatements': 1000}
+    if debug:
+        opts['debug'] = True
+    res = contained(call, lambda: impl.bs.execute_script(impl.bs.parse_script(src), opts), d)
+    if res[0] != 'ok' or 'after' not in log:
+        raise Violation('%s: the script did not continue after failing calls inside the expression: %r' % (call, res), d, 'data-expression-aborts')
+    name = 'hf' if kind != 'library' else 'arrayGet'
+    failed = [m for m in log if isinstance(m, str) and m.startswith('BareScript: Function "%s" failed with error: ' % name)]
+    expected = (len(calls) if kind != 'library' else {'dataFilter': 3, 'dataCalculatedField': 3, 'dataJoin': 6, 'dataJoinRight': 3}[helper]) if debug else 0
+    if kind != 'library' and not calls:
+        raise Violation('%s never called the host function of its expression' % call, d, 'data-expression-not-evaluated')
+    if len(failed) != expected:
+        raise Violation('%s: %d failing %s calls, %d reported through logFn with debug %s' % (call, len(calls) or expected, name, len(failed), 'on' if debug else 'off'), d,
+                        'data-expression-failure-log')
+    if not debug and any(isinstance(m, str) and m.startswith('BareScript:') for m in log):
+        raise Violation('%s logged %r with debug off' % (call, log[:2]), d, 'log-without-debug:' + helper)
+
+
 def check_host_failures(kinds, in_function, nested, debug, log_mode='fn', with_include=False):
     """kinds: list of host function behaviours, called in order as hf0(), hf1(), ...; log_mode: the host passes a log function, none at all, or
     an explicit null; with_include: the script first includes a file that lint has something to say about (debug mode reports that through logFn)."""
@@ -566,6 +602,28 @@ def run_shard(ctx, spec):
                     ctx.violation(v)
                 ctx.case(digest(['badexpr', name, enc(args), debug]), True, ['bad-expression:' + name, 'debug' if debug else 'no-debug'], {'fn': name, 'args': args})
         ctx.exhaustive['every expression parameter of dataFilter / dataCalculatedField / dataJoin x %d texts that are not expressions' % len(BAD_EXPRESSIONS)] = True
+        for helper in sorted(DATA_HELPER_CALLS):
+            for variables in (None, 'empty', 'one'):
+                for debug in (True, False):
+                    for kind in ('ValueError', 'KeyError', 'CustomError', 'library'):
+                        try:
+                            check_data_expression_failures(helper, variables, debug, kind)
+                        except Violation as v:
+                            ctx.violation(v)
+                        ctx.case(digest(['data-expression', helper, variables, debug, kind]), True,
+                                 ['failure-inside-data-expression:' + helper, 'variables' if variables else 'no-variables', 'debug' if debug else 'no-debug'],
+                                 {'helper': helper, 'variables': variables, 'debug': debug, 'failing': kind})
+        # wrong-typed arguments whose value cannot be shown in the failure message (nested deeper than the host can serialise, not finite, containing
+        # itself): the call still evaluates to its documented failure value and is reported in debug mode (the exact rule of C15, run here as well)
+        from pbt.checks import c15
+        for fn, pos, odd in c15.odd_wrong_cases():
+            if odd not in ('deepA', 'inf', 'cyA', 'cyO'):
+                continue
+            try:
+                c15.check_odd_wrong(fn, pos, odd)
+            except Violation as v:
+                ctx.violation(v)
+            ctx.case(digest(['odd-wrong', fn, pos, odd]), True, ['unshowable-wrong-typed-argument:' + odd], {'fn': fn, 'position': pos, 'argument': odd})
         return
     if spec['kind'] == 'expr':
         def prop(seed, size):
@@ -715,7 +773,12 @@ def minimise_expr(v):
 def replay(detail):
     fns = {'host_fn_a': gv.host_fn_a, 'host_fn_b': gv.host_fn_b, 'host_cmp': c12.host_cmp, 'host_pred': c12.host_pred}
     k = detail.get('kind')
-    if k == 'expr':
+    if k == 'data-expression':
+        check_data_expression_failures(detail['helper'], detail['variables'], detail['debug'], detail['failing'])
+    elif k == 'odd-wrong':
+        from pbt.checks import c15
+        c15.check_odd_wrong(detail['fn'], detail['pos'], detail['odd'])
+    elif k == 'expr':
         check_adv_expression(detail['text'], dec(detail['globals'], fns))
     elif k == 'call':
         check_library_call(detail['fn'], dec(detail['args'], fns))
